@@ -4,6 +4,7 @@ import (
 	"fmt"
 	"go/ast"
 	"go/constant"
+	"go/token"
 	"go/types"
 	"strings"
 
@@ -323,5 +324,116 @@ func runC28Proactive(c *core.Check) {
 	}
 	if n == 0 {
 		c.Undecided(rule, "internal/promql/parser.(*NumberLiteral).String/format", fn.Pos(), "no formatter call found in NumberLiteral.String")
+	}
+}
+
+// ---- C11-R6: leading/trailing/double spaces in the normaliser ---------------------------
+
+func init() {
+	Extend("C11", runC11Proactive,
+		Mutant{Name: "fast-path-accepts-trailing-space", File: "internal/format/format.go", Rule: "C11-R6",
+			Old: "		if fastPath && !previousSpace { // fail on last space", New: "		if fastPath { // fail on last space"},
+		Mutant{Name: "fast-path-accepts-leading-space", File: "internal/format/format.go", Rule: "C11-R6",
+			Old: "		previousSpace := true // fail on first space", New: "		previousSpace := false // fail on first space"},
+		Mutant{Name: "slow-path-keeps-trailing-space", File: "internal/format/format.go", Rule: "C11-R6",
+			Old: "	if previousSpace && w != 0 {\n		w--\n	}\n	return append(dst, buf[:w]...), nil", New: "	return append(dst, buf[:w]...), nil"},
+		Mutant{Name: "slow-path-keeps-leading-space", File: "internal/format/format.go", Rule: "C11-R6",
+			Old: "	w := 0\n	previousSpace := true\n", New: "	w := 0\n	previousSpace := false\n"})
+}
+
+// c11SpaceFlag reports whether v is a "previous byte was a space" flag: a phi that
+// starts as the constant true (so a leading space counts as a double space).
+func c11SpaceFlag(v ssa.Value) bool {
+	phi, ok := v.(*ssa.Phi)
+	if !ok {
+		return false
+	}
+	hasTrue, hasOther := false, false
+	for _, e := range phi.Edges {
+		if k, isK := e.(*ssa.Const); isK && k.Value != nil && k.Value.Kind() == constant.Bool {
+			if constant.BoolVal(k.Value) {
+				hasTrue = true
+			}
+			continue
+		}
+		hasOther = true
+	}
+	return hasTrue && hasOther
+}
+
+func runC11Proactive(c *core.Check) {
+	c.Decides += " R6 appendValidStringValue returns its input unchanged only when the previous-byte-was-a-space flag, which starts as true, is false at the end (no leading, trailing or double space passes the fast path), and the slow path drops one trailing byte exactly when that flag is set and something was written (the flag starts as true there too, so leading spaces are skipped)."
+	const rule = "C11-R6"
+	c.Rule(rule, "K1 guard dominance", 2, "the return of append(dst, src) is dominated by !flag; the slow path's final length is w or w-1, the latter under flag && w != 0; flag is a phi with an initial true")
+	fn := need(c, rule, "internal/format.appendValidStringValue")
+	if fn == nil || len(fn.Params) < 2 {
+		return
+	}
+	nFast, nSlow := 0, 0
+	for _, ret := range core.Returns(fn) {
+		if len(ret.Results) != 2 {
+			continue
+		}
+		call, ok := ret.Results[0].(*ssa.Call)
+		if !ok || core.CalleeName(&call.Call) != "builtin append" || len(call.Call.Args) != 2 {
+			continue
+		}
+		if call.Call.Args[1] == ssa.Value(fn.Params[1]) {
+			// fast path: input returned unchanged
+			nFast++
+			ok := false
+			for _, g := range core.Facts(ret.Block()) {
+				if len(g.Alts) == 1 && !g.Alts[0].Pol && c11SpaceFlag(g.Alts[0].Cond) {
+					ok = true
+				}
+			}
+			c.Require(ok, rule, fmt.Sprintf("internal/format.appendValidStringValue/unchanged-return#%d", nFast), ret.Pos(), "input returned unchanged only without leading/trailing/double space",
+				"the input is returned unchanged without the test that the space flag (initially true) is false at the end (facts: "+core.FactsString(ret.Block())+"): a value with a leading or trailing space is accepted as already valid, so forcing a valid-looking value changes it on the second pass / equal series get different tag values")
+			continue
+		}
+		sl, ok := call.Call.Args[1].(*ssa.Slice)
+		if !ok || sl.High == nil {
+			continue
+		}
+		nSlow++
+		good := false
+		if phi, isPhi := sl.High.(*ssa.Phi); isPhi {
+			for i, e := range phi.Edges {
+				b, isB := e.(*ssa.BinOp)
+				if !isB || b.Op != token.SUB || !core.IsConstInt(b.Y, 1) {
+					continue
+				}
+				others := true // every other edge is the untrimmed length itself
+				for j, o := range phi.Edges {
+					if j != i && o != b.X {
+						others = false
+					}
+				}
+				if !others {
+					continue
+				}
+				// the edge w-1 comes from a block guarded by flag && !(w == 0)
+				pred := ret.Block().Preds[i]
+				flag, nonZero := false, false
+				for _, g := range core.Facts(pred) {
+					if len(g.Alts) != 1 {
+						continue
+					}
+					l := g.Alts[0]
+					if l.Pol && c11SpaceFlag(l.Cond) {
+						flag = true
+					}
+					if !l.Pol && l.Op == token.EQL && l.X == b.X && core.IsConstInt(l.Y, 0) {
+						nonZero = true
+					}
+				}
+				good = flag && nonZero
+			}
+		}
+		c.Require(good, rule, fmt.Sprintf("internal/format.appendValidStringValue/normalised-return#%d", nSlow), ret.Pos(), "trailing space trimmed",
+			"the normalised value is returned with length "+core.Expr(sl.High)+", which is not `w, or w-1 when the last written byte is a space`: a trailing space (or, with the flag starting false, a leading one) stays in the value, the result is not a valid tag value and forcing is not idempotent")
+	}
+	if nFast == 0 || nSlow == 0 {
+		c.Undecided(rule, "internal/format.appendValidStringValue/returns", fn.Pos(), fmt.Sprintf("expected the unchanged-input return and the normalised return, found %d and %d", nFast, nSlow))
 	}
 }
